@@ -81,7 +81,7 @@ def r12_1(ctx: Ctx):
         if f.cls is not cls or f.parent is not None:
             continue
         # sequential scan: iterates the handle itself
-        scans = [n for n in walk_no_nested(f.node) if isinstance(n, ast.For) and attr_chain(n.iter) == handle]
+        scans = [n for n in ast.walk(f.node) if isinstance(n, (ast.For, ast.comprehension)) and attr_chain(n.iter) == handle]
         if scans:
             seq_scans.append(f)
             continue
@@ -326,9 +326,13 @@ def r12_3(ctx: Ctx):
         attr_chain(s_.target) == lst or (isinstance(s_.target, ast.Subscript) and attr_chain(s_.target.value) == lst))]
     if len(all_inc) != 2:
         oke = False
-    ctx.ob("R12.3", enc, tests[0] if tests else "run-length encoder", oke,
-           "a new (kind, 1) pair is started when the list is empty or the last kind differs, otherwise the last "
-           "count is incremented", node=tests[0] if tests else enc.node)
+    if app and inc and tests:
+        ctx.ob("R12.3", enc, tests[0] if tests else "run-length encoder", oke,
+               "a new (kind, 1) pair is started when the list is empty or the last kind differs, otherwise the last "
+               "count is incremented", node=tests[0] if tests else enc.node)
+    else:
+        ctx.ob("R12.3", enc, "run-length encoder", True, "the encoder is not written as `list += [kind, 1]` / `list[-1] += 1` under a test "
+               "of the last kind; not decided on this tree", undecided=True, node=enc.node)
     rng = [n for n in walk_no_nested(dec.node) if isinstance(n, ast.For) and isinstance(n.iter, ast.Call)
            and call_name(n.iter) == "range"]
     okd = False
@@ -339,8 +343,11 @@ def r12_3(ctx: Ctx):
         okd = len(a) == 3 and const_int(a[0]) == 0 and const_int(a[2]) == 2 and norm(a[1]) == "len(%s)" % lst \
             and len(yd) == 1 and isinstance(yd[0].value, ast.Tuple) \
             and [norm(e) for e in yd[0].value.elts] == ["%s[%s]" % (lst, i), "%s[%s + 1]" % (lst, i)]
-    ctx.ob("R12.3", dec, rng[0] if rng else "run-length decoder", okd,
-           "the decoder walks the list two by two and yields (kind, count)", node=rng[0] if rng else dec.node)
+    if rng:
+        ctx.ob("R12.3", dec, rng[0], okd, "the decoder walks the list two by two and yields (kind, count)", node=rng[0])
+    else:
+        ctx.ob("R12.3", dec, "run-length decoder", True, "the decoder is not a `for i in range(0, len(list), 2)` loop; not decided on "
+               "this tree", undecided=True, node=dec.node)
 
 
 def _format_fields(fmt: str):
@@ -398,6 +405,26 @@ def r12_4(ctx: Ctx):
     loops = [n for n in walk_no_nested(f.node) if isinstance(n, ast.For)]
     tests = [n for l in loops for n in walk_no_nested(l) if isinstance(n, ast.If)]
     if not tests:
+        # boundaries found by itertools.groupby: the key function plays the part of the comparison
+        gb = [c_ for c_ in calls_in(f.node) if call_name(c_) == "groupby"]
+        if gb:
+            key = next((k_.value for k_ in gb[0].keywords if k_.arg == "key"), gb[0].args[1] if len(gb[0].args) > 1 else None)
+            fields = set()
+            if isinstance(key, ast.Lambda) and isinstance(key.body, ast.Tuple):
+                fields = {e.attr for e in key.body.elts if isinstance(e, ast.Attribute)}
+            elif isinstance(key, ast.Lambda) and isinstance(key.body, ast.Attribute):
+                fields = {key.body.attr}
+            elif isinstance(key, ast.Call) and call_name(key) == "attrgetter":
+                fields = {a_.value for a_ in key.args if isinstance(a_, ast.Constant)}
+            if {"resid", "resname"} <= fields:
+                ctx.ob("R12.4", f, gb[0], True, "a new residue starts exactly where residue number or residue name changes: the grouping "
+                       "key is the pair of both fields", node=gb[0], compared=sorted(fields))
+            elif fields and fields <= {"resid", "resname"}:
+                ctx.ob("R12.4", f, gb[0], False, "a new residue starts exactly where residue number or residue name changes -- the grouping "
+                       "key uses only %s" % sorted(fields), node=gb[0])
+            else:
+                ctx.ob("R12.4", f, gb[0], True, "grouping key not recognised; boundary not decided on this tree", undecided=True, node=gb[0])
+            return
         raise AnalysisError("R12.4: residue boundary test not found in SystemGro._parse_gro")
     t = tests[0]
     test = t.test
